@@ -59,8 +59,8 @@ def touch(st, k):
         cls, field = k[2:].rstrip("?").split(".")
         st.farr(cls, field, "none" if k.endswith("?") else "val")
         return True
-    if k in ("len", "mem", "heapok", "alloc"):
-        {"len": st.len_arr, "mem": st.mem_arr, "heapok": st.heapok_arr, "alloc": st.alloc_arr}[k]()
+    if k in ("len", "mem", "heapok", "alloc", "nodup"):
+        {"len": st.len_arr, "mem": st.mem_arr, "heapok": st.heapok_arr, "alloc": st.alloc_arr, "nodup": st.nodup_arr}[k]()
         return True
     return False
 
@@ -113,7 +113,8 @@ class FSpec:
     """contract of one real function. pre/post return lists of (label, formula)."""
 
     def __init__(self, qual, pre=None, post=None, modifies=None, raises=None, result=None, param_types=None, fresh_result=False,
-                 effect=None, props=(), may_raise_unspecified=False):
+                 effect=None, props=(), may_raise_unspecified=False, axioms=None):
+        self.axioms = axioms or (lambda st, a: [])
         self.qual = qual
         self.pre = pre or (lambda st, a: [])
         self.post = post or (lambda st0, st1, a, res: [])
@@ -203,6 +204,8 @@ class FSpec:
         sp = st0.peek()
         for label, f in self.pre(sp, a):
             st.oblige(f"pre@{self.qual}:{label}", f, "pre@callsite")
+        for f in self.axioms(st0.peek(), a):
+            st.assume(f)
         out = []
         # raising exits permitted by the contract
         for exc, cond in self.raises.items():
@@ -226,6 +229,8 @@ class FSpec:
         else:
             res = fresh(rty, "res_" + self.qual.split(".")[-1])
             st1.assume_alloc(res)
+        for f in self.axioms(st1.peek(), a):
+            st1.assume(f)
         for label, f in self.post(st0.peek(), st1.peek(), a, res):
             st1.assume(f)
         if self.effect:
@@ -244,10 +249,13 @@ class FSpec:
         st.env = dict(a)
         for label, f in self.pre(st.peek(), a):
             st.assume(f)
+        for f in self.axioms(st.peek(), a):
+            st.assume(f)
         if setup:
             setup(ex, st, a)
         st0 = st.copy()
         alloc0 = st0.alloc_arr()
+        st.obl.append({"name": f"{self.qual}/canary:precondition-not-contradictory", "pc": list(st.pc), "goal": z3.BoolVal(False), "kind": "canary", "expect": "fail"})
         ex.fn_stack.append((self.fn.name, self.cls))
         outs = ex.run(self.fn.body, st)
         ex.fn_stack.pop()
@@ -265,6 +273,8 @@ class FSpec:
             if kind not in ("return", "fall"):
                 raise Unsupported(f"{kind} escapes {self.qual}")
             res = val if kind == "return" else NONE
+            for f in self.axioms(s1.peek(), a):
+                s1.assume(f)
             for exc, cond in self.raises.items():
                 s1.oblige(f"raises:{exc}-whenever-required", z3.Not(cond(st0.peek(), a)), "raises")
             for label, f in self.post(st0.peek(), s1.peek(), a, res):
@@ -443,3 +453,25 @@ def task(tid, props, functions=(), replay=None, heavy=False):
 
 def goal(obl, name, pc, formula, kind="lemma"):
     obl.append({"name": name, "pc": list(pc), "goal": formula, "kind": kind})
+
+
+def eval_call(ex, st, recv, name, pos, kw=None):
+    """call a real method symbolically and fold the paths into one formula: (bool formula of the result, [(state, exc)] raising paths)"""
+    nesc = len(ex.escaped)
+    base = len(st.pc)
+    outs = ex.call_method(recv, name, list(pos), dict(kw or {}), st.copy(), 0, None)
+    parts = [z3.And(*s.pc[base:], truth(v, s)) for s, v in outs]
+    raises = [(s, val) for s, kind, val in ex.escaped[nesc:]]
+    del ex.escaped[nesc:]
+    return (z3.Or(*parts) if parts else z3.BoolVal(False)), raises
+
+
+def pin(obl, qual, expected, what):
+    """obligation: the (docstring-free) AST of `qual` is the one a trusted summary was written for"""
+    import ast as _ast, hashlib
+    src = get_src()
+    fn = src.funcs[qual][0]
+    body = [s for s in fn.body if not (isinstance(s, _ast.Expr) and isinstance(s.value, _ast.Constant) and isinstance(s.value.value, str))]
+    h = hashlib.sha256("\n".join(_ast.unparse(s) for s in body).encode()).hexdigest()[:12]
+    obl.append({"name": f"{qual}/pin:{what}", "pc": [], "goal": z3.BoolVal(h == expected), "kind": "pin", "hints": {"actual": h, "expected": expected}})
+    return h
